@@ -53,8 +53,8 @@ def digitsVal (ds : List Char) : Nat := ds.foldl (fun acc c => 10 * acc + (c.toN
 
 /-- the digits of `s` after one optional leading `+` -/
 def unsignedBody : List Char → List Char
-  | '+' :: r => r
-  | s => s
+  | [] => []
+  | c :: r => if c = '+' then r else c :: r
 
 /-- Rust `str::parse::<usize>()` (64-bit): an optional `+`, then at least one ASCII digit, value ≤ 2^64-1. -/
 def parseUsize (s : List Char) : Option Nat :=
@@ -280,12 +280,12 @@ def hasLigAnchor (g : Glyph α) (n : Name) : Bool :=
 
 /-- mark-to-ligature bases (marks.rs:520-552) -/
 def ligBases (gs : List (Glyph α)) (n : Name) : List (Nat × List (Option α)) :=
-  (pruned gs).filterMap fun g =>
+  (pruned gs).flatMap fun g =>
     if mightBeLiga gs g && hasLigAnchor g n then
       match maxLigIndex g with
-      | some mx => some (g.gid, ligComponents g n mx)
-      | none => none
-    else none
+      | some mx => [(g.gid, ligComponents g n mx)]
+      | none => []
+    else []
 
 /-- marks of a mark-to-ligature group (marks.rs:555-570) -/
 def ligMarks (gs : List (Glyph α)) (n : Name) : List (Nat × α) :=
@@ -404,18 +404,21 @@ structure Metric where
 def masterValues (M : Model) (vals : List (Loc × Rat)) : Values :=
   M.locations.map fun l => (vals.find? (fun p => p.1 == l)).map fun p => ((otRound p.2 : Int) : Rat)
 
-/-- `resolve_variable_metric`: round each master value (`ot_round`), build the (sub-)model on the locations that
-    have a value, compute deltas (ties-even at each step), default = rounded sum over the regions that are non-zero
-    at the default location, deltas = rounded deltas of the non-default regions. -/
-def resolveMetric (nAxes : Nat) (vals : List (Loc × Rat)) : Metric :=
-  let M := Model.new nAxes (vals.map (·.1))
-  let ds := M.deltas Rounding.tiesEven.apply (masterValues M vals)
-  let raw : List (Region × Rat) := (M.influence.zip ds).filterMap fun (r, d) => d.map fun d => (r, d)
-  let dflt : Loc := List.replicate nAxes 0
+/-- the tail of `resolve_variable_metric` (features.rs:211-246): from the model's regions and the deltas computed
+    on them, default = `ot_round` of the sum over the regions that are non-zero at the default location,
+    deltas = `ot_round`ed deltas of the non-default regions. -/
+def metricOf (infl : List Region) (ds : List (Option Rat)) (dflt : Loc) : Metric :=
+  let raw : List (Region × Rat) := (infl.zip ds).filterMap fun (r, d) => d.map fun d => (r, d)
   let default := otRound (ratSum (raw.filterMap fun (r, d) =>
     let s := scalarAt r dflt
     if s ≠ 0 then some (d * s) else none))
   { default, deltas := (raw.filter fun (r, _) => !isDefaultRegion r).map fun (r, d) => (r, otRound d) }
+
+/-- `resolve_variable_metric`: round each master value (`ot_round`), build the (sub-)model on the locations that
+    have a value, compute deltas (ties-even at each step), then `metricOf`. -/
+def resolveMetric (nAxes : Nat) (vals : List (Loc × Rat)) : Metric :=
+  let M := Model.new nAxes (vals.map (·.1))
+  metricOf M.influence (M.deltas Rounding.tiesEven.apply (masterValues M vals)) (List.replicate nAxes 0)
 
 /-- OpenType evaluation of a variable value: default + Σ region scalar · delta -/
 def Metric.eval (m : Metric) (at_ : Loc) : Rat :=
